@@ -85,6 +85,7 @@ const maxSides = 6
 
 // derived is one document rendered by a render2 step.
 type derived struct {
+	what  string // "" = a document rendered from a template
 	name  string
 	doc   *document.Document
 	m     model
@@ -93,6 +94,13 @@ type derived struct {
 	newKs int    // definitions of slots the template did not define
 	adds  int    // calls that give the document a further part of its own (new slot, image, list)
 	first string // the first of them
+}
+
+func (d *derived) label() string {
+	if d.what != "" {
+		return d.what
+	}
+	return "rendered document " + d.name
 }
 
 // step applies the next extension call to the derived document; false = the history cannot go on.
@@ -107,7 +115,7 @@ func (d *derived) step(res *kit.Result, i int, st *dstats) bool {
 	}
 	k, isDef := opKey(op)
 	if p, stk := kit.Try(call); p != nil {
-		res.Fail("C11.H0", "%s %s (call %d on rendered document %s) panicked: %v [%s]", tag(k, i, "call", ""), op.K, j, d.name, p, stk)
+		res.Fail("C11.H0", "%s %s (call %d on %s) panicked: %v [%s]", tag(k, i, "call", ""), op.K, j, d.label(), p, stk)
 		return false
 	}
 	if !isDef {
@@ -121,13 +129,13 @@ func (d *derived) step(res *kit.Result, i int, st *dstats) bool {
 		return true
 	}
 	if err != nil {
-		res.Fail("C11.H0", "%s %s(%s, %q) (call %d on rendered document %s) was rejected: %v", tag(k, i, "call", ""), op.K, op.Kind, clip(op.Text, 40), j, d.name, err)
+		res.Fail("C11.H0", "%s %s(%s, %q) (call %d on %s) was rejected: %v", tag(k, i, "call", ""), op.K, op.Kind, clip(op.Text, 40), j, d.label(), err)
 		return false
 	}
 	res.Eval("C11.H0")
 	nd := defOf(op, i)
-	nd.Via = fmt.Sprintf("%s, call %d on rendered document %s", op.K, j, d.name)
-	if _, had := d.m[k]; had {
+	nd.Via = fmt.Sprintf("%s, call %d on %s", op.K, j, d.label())
+	if old, had := d.m[k]; had && !old.Loose {
 		st.redef++
 	} else {
 		d.newKs++
